@@ -33,6 +33,13 @@ impl Nonce {
 
     pub fn new_from_hash(hash: Vec<u8>) -> Result<Nonce, JsError> {
         use std::convert::TryInto;
+        if hash.len() < Self::HASH_LEN {
+            return Err(JsError::from_str(&format!(
+                "hash len must be {} - found {}",
+                Self::HASH_LEN,
+                hash.len()
+            )));
+        }
         match hash[..Self::HASH_LEN].try_into() {
             Ok(bytes_correct_size) => Ok(Self {
                 hash: Some(bytes_correct_size),
